@@ -1,6 +1,78 @@
 /-
-  C01 — BFS layers are exactly the distance classes.  Property theorems only.
+  C01 — BFS layers are exactly the distance classes.  Property theorems only; proofs in
+  `CvProofs/Bfs.lean`, the evaluated example graph in `CvProofs/BfsExample.lean`.
 -/
 import CvProofs.Spec
-namespace Cv.C01
-end Cv.C01
+import CvProofs.Bfs
+import CvProofs.BfsExample
+namespace Cv
+
+variable {α : Type} {g : Graph α} {S : List α}
+
+/-- undirected graph: neighbours of distance class i lie in classes i-1, i, i+1 (why the two-layer window is sound) -/
+theorem window2_sound (nb : α → List α) (S : List α) (hsym : Symm nb) (i : Nat) (x y : α)
+    (hx : DistLayer nb S i x) (hy : y ∈ nb x) : ∃ j, DistLayer nb S j y ∧ i ≤ j + 1 ∧ j ≤ i + 1 := by
+  exact BfsThm.window2_sound nb S hsym i x y hx hy
+
+open BfsExample in
+/-- non-vacuity: the 4-cycle is symmetric, `1` is in class 1 and has the neighbour `2` -/
+example : Symm exG.nb ∧ DistLayer exG.nb [0] 1 1 ∧ 2 ∈ exG.nb 1 := by
+  refine ⟨exG_symm, ?_, by decide⟩
+  have hst := BfsThm.stored_sound (exG_hyp [0]) {} 1 [1, 3] (by rw [full_layers]; decide)
+  exact (hst.2 1).1 (by decide)
+
+open BfsExample in
+/-- WITHOUT symmetry the window is wrong: in the directed 3-cycle `0 → 1 → 2 → 0` (`nb3 x = [(x+1) % 3]`)
+the state `2` is in class 2 and its neighbour `0` is in class 0, which is outside the window `1 … 3`. -/
+example : DistLayer nb3 [0] 2 2 ∧ 0 ∈ nb3 2 ∧
+    ¬ ∃ j, DistLayer nb3 [0] j 0 ∧ 2 ≤ j + 1 ∧ j ≤ 2 + 1 :=
+  window2_needs_symm
+
+/-- exhaustive run: sizes, stored layers, diameter are those of the mathematically defined graph -/
+theorem bfs_layers_eq_dist (h : BfsHyp g S) (c : BfsCfg α) (hc : (bfs g c S).completed = true) :
+    (∀ i, i < (bfs g c S).layerSizes.length →
+        ∃ L, IsLayer g S i L ∧ (bfs g c S).layerSizes[i]? = some L.length) ∧
+    (∀ x, ¬ DistLayer g.nb S (bfs g c S).layerSizes.length x) ∧
+    (∀ i L, (i, L) ∈ (bfs g c S).layers → IsLayer g S i L) ∧
+    (∃ L, ((bfs g c S).layerSizes.length - 1, L) ∈ (bfs g c S).layers) := by
+  exact BfsThm.layers_eq_dist h c hc
+
+open BfsExample in
+/-- non-vacuity: on the 4-cycle (identity hash, batch size 1: layer 1 goes through the batched branch,
+inverse-closed: two-layer window) the default run is exhaustive and reports `[1, 2, 1]` -/
+example : BfsHyp exG [0] ∧ (bfs exG {} [0]).completed = true ∧
+    (bfs exG {} [0]).layerSizes = [1, 2, 1] ∧
+    (bfs exG {} [0]).layers = [(0, [0]), (1, [1, 3]), (2, [2])] :=
+  ⟨exG_hyp _, full_completed, full_sizes, full_layers⟩
+
+/-- the search reports completion when nothing stops it -/
+theorem bfs_completes (h : BfsHyp g S) (c : BfsCfg α) (k : Nat) (hk : 1 ≤ k) (hkd : k ≤ c.maxDiameter)
+    (hempty : ∀ x, ¬ DistLayer g.nb S k x)
+    (hexp : ∀ i L, IsLayer g S i L → L.length < c.maxExplore)
+    (hstop : ∀ f, c.stop = some f → ∀ i l, f i l = false) : (bfs g c S).completed = true := by
+  exact BfsThm.completes h c k hk hkd hempty hexp hstop
+
+open BfsExample in
+/-- non-vacuity: for the 4-cycle and the default configuration every hypothesis holds with `k = 3` -/
+example : BfsHyp exG [0] ∧ 1 ≤ 3 ∧ 3 ≤ ({} : BfsCfg Nat).maxDiameter ∧
+    (∀ x, ¬ DistLayer exG.nb [0] 3 x) ∧
+    (∀ i L, IsLayer exG [0] i L → L.length < ({} : BfsCfg Nat).maxExplore) ∧
+    (∀ f, ({} : BfsCfg Nat).stop = some f → ∀ i l, f i l = false) :=
+  ⟨exG_hyp _, by decide, by decide, class3_empty, layer_small, fun f hf => by cases hf⟩
+
+/-- the answer does not depend on hashing, batch size, batching, stored outputs -/
+theorem bfs_config_independent (g1 g2 : Graph α) (S : List α) (hnb : g1.nb = g2.nb)
+    (h1 : BfsHyp g1 S) (h2 : BfsHyp g2 S) (c1 c2 : BfsCfg α)
+    (hc1 : (bfs g1 c1 S).completed = true) (hc2 : (bfs g2 c2 S).completed = true) :
+    (bfs g1 c1 S).layerSizes = (bfs g2 c2 S).layerSizes := by
+  exact BfsThm.config_independent g1 g2 S hnb h1 h2 c1 c2 hc1 hc2
+
+open BfsExample in
+/-- non-vacuity: the same 4-cycle with another hash (`x ↦ 10 - x`), batch size 7, no inverse-closed flag,
+batching disabled, hashes requested, nothing stored beyond the mandatory layers -/
+example : exG.nb = exG'.nb ∧ BfsHyp exG [0] ∧ BfsHyp exG' [0] ∧
+    (bfs exG {} [0]).completed = true ∧ (bfs exG' cAlt [0]).completed = true ∧
+    (bfs exG {} [0]).layerSizes = [1, 2, 1] ∧ (bfs exG' cAlt [0]).layerSizes = [1, 2, 1] :=
+  ⟨rfl, exG_hyp _, exG'_hyp _, full_completed, alt_completed, full_sizes, alt_sizes⟩
+
+end Cv
